@@ -381,4 +381,36 @@ theorem version_gates :
     ∧ Ver.parse Gen.gate_cropper_footer = some Ver.v_0_2_1 := by
   refine ⟨by decide, by decide, by decide⟩
 
+/-! ### read.py: diagonals (guards, branch, the grid index of the d-th trace) -/
+
+theorem correlated_diagonal (g : Geo) (cd d lo hi maxLen s e : Int) :
+    (Gen.cd_guard cd g.n0 g.n1 ↔ (decide (-(g.n1 : Int) < cd) && decide (cd < (g.n0 : Int))) = true)
+    ∧ (Gen.cd_guard_lo maxLen lo ↔ (decide (0 ≤ lo) && decide (lo < maxLen)) = true)
+    ∧ (Gen.cd_guard_hi hi maxLen ↔ (decide (0 < hi) && decide (hi ≤ maxLen)) = true)
+    ∧ (Gen.cd_guard_order hi lo ↔ lo < hi)
+    ∧ (Gen.cd_guard_window e s g.n2 ↔ Reader.windowOk g s e = true)
+    ∧ (Gen.cd_branch cd ↔ cd ≥ 0)
+    ∧ Gen.cd_index_a cd d g.n1 = (d + cd) * g.n1 + d
+    ∧ Gen.cd_index_b cd d g.n1 = d * g.n1 + d - cd := by
+  unfold Gen.cd_guard Gen.cd_guard_lo Gen.cd_guard_hi Gen.cd_guard_order Gen.cd_guard_window Gen.cd_branch
+    Gen.cd_index_a Gen.cd_index_b Reader.windowOk
+  simp only [Bool.and_eq_true, decide_eq_true_eq]
+  refine ⟨?_, ?_, ?_, ?_, ?_, ?_, ?_, ?_⟩ <;>
+    first | trivial | rfl | exact Iff.rfl | (constructor <;> intro h <;> omega)
+
+theorem anticorrelated_diagonal (g : Geo) (ad d lo hi maxLen s e : Int) :
+    (Gen.ad_guard ad g.n0 g.n1 ↔ (decide (0 ≤ ad) && decide (ad < (g.n0 : Int) + g.n1 - 1)) = true)
+    ∧ (Gen.ad_guard_lo maxLen lo ↔ (decide (0 ≤ lo) && decide (lo < maxLen)) = true)
+    ∧ (Gen.ad_guard_hi hi maxLen ↔ (decide (0 < hi) && decide (hi ≤ maxLen)) = true)
+    ∧ (Gen.ad_guard_order hi lo ↔ lo < hi)
+    ∧ (Gen.ad_guard_window e s g.n2 ↔ Reader.windowOk g s e = true)
+    ∧ (Gen.ad_branch ad g.n1 ↔ ad < g.n1)
+    ∧ Gen.ad_index_a ad d g.n1 = ad + d * ((g.n1 : Int) - 1)
+    ∧ Gen.ad_index_b ad d g.n1 = (ad - g.n1 + 1 + d) * g.n1 + ((g.n1 : Int) - d - 1) := by
+  unfold Gen.ad_guard Gen.ad_guard_lo Gen.ad_guard_hi Gen.ad_guard_order Gen.ad_guard_window Gen.ad_branch
+    Gen.ad_index_a Gen.ad_index_b Reader.windowOk
+  simp only [Bool.and_eq_true, decide_eq_true_eq]
+  refine ⟨?_, ?_, ?_, ?_, ?_, ?_, ?_, ?_⟩ <;>
+    first | trivial | rfl | exact Iff.rfl | (constructor <;> intro h <;> omega)
+
 end Sgz.Tie
